@@ -640,7 +640,7 @@ void run_case(const uint8_t *data, size_t size, CaseCtx &ctx) {
   // ---- analysis (C05: deterministic step budget) ------------------------------------------------------
   std::unique_ptr<analyzer_t> ap;
   g_step_count = 0;
-  g_step_budget = 5000000;
+  g_step_budget = 400000;
   try {
     QuietCout q;
 #ifdef H_BU
